@@ -551,11 +551,12 @@ pub fn gen_row(g: &mut G<'_>, cols: &[ColSpec], bin: bool, last: bool) -> RowPro
         return RowProg { cells, form };
     }
     let cells: Vec<Val> = cols.iter().map(|c| gen_cell(g, c, bin)).collect();
-    let form = match g.weighted(&[3, 2, 3, if last && !cols.is_empty() { 2 } else { 0 }]) {
+    let form = match g.weighted(&[3, 2, 3, if last && !cols.is_empty() { 2 } else { 0 }, if cols.len() >= 2 { 1 } else { 0 }]) {
         0 => RowForm::WriteRow,
         1 => RowForm::WriteRowRef,
         2 => RowForm::Cols,
-        _ => RowForm::ColsOpen,
+        3 => RowForm::ColsOpen,
+        _ => RowForm::Mixed(g.usize_in(1, cols.len() - 1)),
     };
     RowProg { cells, form }
 }
